@@ -183,7 +183,7 @@ def gen_data_case(rnd):
     table = []
     for _ in range(rnd.randint(1, 6)):
         table.append([rnd.choice(DATA_TYPES[d["type"]][1]) for d in decls])
-    return {"decls": decls, "allowed": allowed, "header": header, "table": table}
+    return {"decls": decls, "allowed": allowed, "header": header, "table": table, "multiline_header": header > 0 and rnd.random() < 0.5}
 
 
 def cid_rows_for(fmt, case):
@@ -199,7 +199,8 @@ def cid_rows_for(fmt, case):
 
 def observe_data(case, rnd):
     out = {}
-    stored = [["h%d" % i for i in range(len(case["decls"]))]] * case["header"] + case["table"]
+    # header rows are rows, not lines: a title cell may hold a line break
+    stored = [[("title\nof h%d" if case.get("multiline_header") else "h%d") % i for i in range(len(case["decls"]))]] * case["header"] + case["table"]
     for fmt, ext in (("delimited", "csv"), ("ods", "ods"), ("excel", "xlsx")):
         path = os.path.join(TMP, "data_%d.%s" % (os.getpid(), ext))
         if fmt == "delimited":
